@@ -173,10 +173,6 @@ def shortStep (vals : List F) (n : Nat) (acc : Fv F) : Fr → Fv F
   | .L _ _ => acc
   | .R l i => mx2 (minv (nodeAt vals i)) (mx2 (mxAt vals n l.ptr) acc)
 
-def Fr.idx : Fr → Nat
-  | .L i _ => i
-  | .R _ i => i
-
 theorem p1Body_spec (n fuel : Nat) (s : State F) (hv : VS s n) (hrun : s.ctl = .run) (i : Nat) (fr : Fr) (rest : Ctx)
     (hc : CtxLinked (s.ia "tree_nodes") n (i : Int) (fr :: rest))
     (hpar : nAt (s.ia "tree_nodes") i 3 = ctxPar (fr :: rest)) (hi : i + 1 < n)
